@@ -3,19 +3,27 @@
 Proof: lean/NaijaVerif/Props/C10.lean (assembly), C10Lex.lean (every valid layout of every token sequence
 lexes to that sequence; full round trip), C10Parse.lean (parsing commutes with span erasure; redundant
 parentheses). Tie: lexer re-layout stream, parser same-token pairs, and the composed Lean pipeline vs the
-real pipeline on re-laid-out programs. Implementation-level oracle (no model): a program and a re-layout
-of it must be accepted alike and print the same values / end alike (ORACLE-FAIL [C10])."""
+real pipeline on re-laid-out programs and on programs with REDUNDANT PARENTHESES around primaries in every
+syntactic position (operand of a unary operator, head of a postfix chain, callee, receiver literal,
+argument, index, element …). Implementation-level oracles (no model): a program and a re-layout /
+parenthesisation of it must parse to the same tree modulo spans (parser pairs), be accepted alike and
+print the same values / end alike (ORACLE-FAIL [C10])."""
+import os
+
 import lexlib
 import parselib
 import pipelib
-from common import Check
+from common import VERIF, Check
 
 MODULES = ["NaijaVerif.Props.C10Lex", "NaijaVerif.Props.C10Parse", "NaijaVerif.Props.C10"]
 
 
 def run(ck: Check):
     ck.rule = ("token sequences (shipped programs, windows, synthesised) in 7 layouts each for the lexer; same-token "
-               "pairs and redundant-parenthesis pairs for the parser; generated programs re-laid-out (one token per "
+               "pairs and redundant-parenthesis pairs for the parser (wrap points: every `parse_expression(0)` position, "
+               "every atom, the head and every prefix of a postfix chain also under a unary operator, callee names, "
+               "receiver literals); generated programs with parentheses around literals and identifiers in expression "
+               "position through the whole pipeline (same verdict, same output); generated programs re-laid-out (one token per "
                "line, minimal separators, comment after every token, CRLF, lone CR, random separators/comments, "
                "re-spaced multi-word keywords) through the whole real pipeline and the composed Lean pipeline; "
                "non-trivial = the text produces at least one real token / the program runs; distinct by request text")
@@ -29,6 +37,9 @@ def run(ck: Check):
     lexlib.lex_streams(ck, ck.tier, only=["relayout"])
     parselib.run_pairs(ck, 1000 if quick else 20000)
     pipelib.pipe_stream(ck, "layouts", 600 if quick else 20000)
+    reqs, res = pipelib.pipe_stream(ck, "parens", 300 if quick else 10000, extra=corpus_pairs())
+    ck.count("paren_pairs", sum(1 for r in reqs if r.startswith("pair ")))
+    ck.count("paren_pairs_run_to_the_end", sum(1 for r, a in zip(reqs, res["model_lines"]) if r.startswith("src ") and a.startswith("stage=run")))
     if ck.tier == "thorough":
         ck.leanchecker(MODULES)
     if ck.is_broken():
@@ -37,10 +48,27 @@ def run(ck: Check):
             t = " ".join(str(v) for v in b.values())
             fams.append("lex" if ("Lex" in t or "Lexical" in t) else "parse" if ("Parse" in t or "Pratt" in t) else None)
         fam = next((f for f in fams if f), None)
-        if fam == "lex":
-            lexlib.lex_search(ck, "C10")
-        elif fam == "parse":
-            parselib.parse_search(ck)
+        # a concrete failing input of the whole pipeline (two texts that differ only in layout / redundant
+        # parentheses and behave differently) is reported whichever stage is attributed below
+        pipe_fails = [f for f in ck.oracle_fails if f.get("family") == pipelib.FAMILY]
+        if pipe_fails and fam in ("lex", "parse"):
+            rep = pipelib.report(ck, "two texts that differ only in layout / redundant parentheses behave differently")
+            if rep is not None and rep["kind"] == "impl-vs-oracle":
+                ck.report_violation(rep)
+        if fam in ("lex", "parse"):
+            # the stage's own search reads ck.oracle_fails / ck.disagreements: only its own request format
+            hidden_o = [f for f in ck.oracle_fails if f.get("family") == pipelib.FAMILY]
+            hidden_d = [d for d in ck.disagreements if d.get("family") == pipelib.FAMILY]
+            ck.oracle_fails[:] = [f for f in ck.oracle_fails if f.get("family") != pipelib.FAMILY]
+            ck.disagreements[:] = [d for d in ck.disagreements if d.get("family") != pipelib.FAMILY]
+            try:
+                if fam == "lex":
+                    lexlib.lex_search(ck, "C10")
+                else:
+                    parselib.parse_search(ck)
+            finally:
+                ck.oracle_fails.extend(hidden_o)
+                ck.disagreements.extend(hidden_d)
         else:
             rep = pipelib.report(ck, "composed model and real pipeline disagree on a re-laid-out program")
             if rep is not None:
@@ -49,6 +77,19 @@ def run(ck: Check):
             else:
                 ck.report_violation({"kind": "tie-broken", "broken": ck.broken[:10], "requests": []}, no_input_found=True)
     return ck.finish()
+
+
+def corpus_pairs():
+    """`pair` requests of corpus/C10/pairs.src: `<program> ||| <the same with redundant parentheses>` per
+    line, `\\n` = newline, `##` comments."""
+    path = os.path.join(VERIF, "corpus", "C10", "pairs.src")
+    out = []
+    if os.path.exists(path):
+        for line in open(path, encoding="utf-8").read().split("\n"):
+            if line.strip() and not line.startswith("##") and " ||| " in line:
+                a, b = line.replace("\\n", "\n").split(" ||| ", 1)
+                out.append(pipelib.pair_request(a, b))
+    return out
 
 
 def replay(ck, data):
